@@ -741,6 +741,13 @@ func (g *G) Op() Op {
 			"path": pickU(g, []string{"F64", "F32", "In.F", "Pt.F"}, "badpath"),
 			"val":  pickU(g, []string{"nan", "inf", "-inf", "nan", "badtime", "chan", "func"}, "badval"),
 		}
+	case "otherSwitch":
+		op.Ref = g.uni(64, "ref")
+		if g.pct("otheroff") < 40 {
+			op.Ms = 0
+		} else {
+			op.Ms = 100 * (1 + g.uni(15, "otherto"))
+		}
 	case "coldUpdate":
 		op.Ref = g.uni(64, "ref")
 		op.Sets = g.Sets()
